@@ -409,11 +409,23 @@ func (s *sim) drop(from, idx int) {
 
 func (s *sim) inject(to int, raw []byte, what string) {
 	s.logEvent("inject to=%d %s len=%d", to, what, len(raw))
+	p := &simPkt{id: -1, from: 1 - to, raw: raw, at: s.now()}
+	pk := &packet{}
+	if err := pk.unmarshal(false, raw); err == nil {
+		p.pkt = pk
+	}
+	ev := &simEvent{kind: "deliver", side: to, pkt: p}
+	for _, o := range s.obs {
+		o.before(s, ev)
+	}
 	select {
 	case s.conn[to].in <- raw:
 	default:
 	}
 	s.settle()
+	for _, o := range s.obs {
+		o.after(s, ev)
+	}
 }
 
 func (s *sim) advance(d time.Duration) {
